@@ -318,6 +318,31 @@ def prove_equal(impl, ref, pc=(), timeout_s=30.0, bound=100, eps=Fraction(1, 100
     return Verdict("unknown", None, "z3 %s/%s" % (r, r2))
 
 
+def prove(formula, pc=(), timeout_s=30.0, bound=100):
+    """Is  pc /\\ (denominators != 0)  ==>  formula  valid?  (formula: bool term)"""
+    if formula is T.TRUE:
+        STATS["fastpath"] += 1
+        return Verdict("holds")
+    side = [T.cmp("ne", d, T.ZERO) for d in T.denominators(formula, *pc) if not T.is_const(d)]
+    base = list(pc) + side
+    neg = T.not_(formula)
+    dom = []
+    for name, sort in T.free_vars(formula, *base).items():
+        if sort == "R":
+            x = T.var(name)
+            dom.append(T.cmp("le", x, T.const(bound)))
+            dom.append(T.cmp("ge", x, T.const(-bound)))
+    r, m = check(base + dom + [neg], timeout_s)
+    if r == "sat":
+        return Verdict("violated", m, "bounded-domain")
+    r2, m2 = check(base + [neg], timeout_s)
+    if r2 == "unsat":
+        return Verdict("holds")
+    if r2 == "sat":
+        return Verdict("violated", m2, "exact")
+    return Verdict("unknown", None, "z3 %s/%s" % (r, r2))
+
+
 def complete_model(model, *terms, default=Fraction(1)):
     """assign every free variable (solver models may omit don't-cares)"""
     env = dict(model or {})
